@@ -98,7 +98,7 @@ theorem run_flux_closed (hC : CfgOK F T cfg) (hT : CfgTrOK F cfg A) (hJ0 : CfgRw
         rw [het]; exact (hW.et0 t).le
       ccAdj_le := fun _ _ => fullDay_ccAdj_le_one hday
       ccxW_le := fun hg _ => by
-        obtain ⟨_, f2, f3, _⟩ := fullDay_canopy_facts hday hg hcc hC.fn.powNN henv.cc hx1 w0 w1
+        obtain ⟨_, f2, f3, _⟩ := fullDay_canopy_facts hday hg hcc hC.fn.powNN hC.fn.powSq henv.cc hx1 w0 w1
         have q0 : 0 ≤ d.P.W.soil.fwcc / 100 := by
           rw [hP]; exact div_nonneg hE.fwcc0 (by norm_num)
         have q1 : d.P.W.soil.fwcc / 100 ≤ 1 := by
